@@ -186,51 +186,73 @@ theorem ssorted_dropLast {l : List LElem} (hs : SSorted l) : SSorted l.dropLast 
 theorem ssorted_tail {h : LElem} {t : List LElem} (hs : SSorted (h :: t)) : SSorted t :=
   (List.pairwise_cons.1 hs).2
 
-/-! ### `furthest` (all lines unpinned) -/
+/-! ### `furthest`: the unpinned resident line with the least `nextIdx` -/
 
-theorem furthest_none {res : List REntry} (hu : ∀ e ∈ res, e.pinned = false) :
-    furthest res = none ↔ res = [] := by
+theorem furthest_none {res : List REntry} :
+    furthest res = none ↔ ∀ e ∈ res, e.pinned = true := by
   induction res with
   | nil => simp [furthest]
   | cons e r ih =>
-    have he := hu e List.mem_cons_self
-    simp only [furthest, he, Bool.false_eq_true, if_false]
-    cases furthest r <;> simp
-    split <;> simp
+    cases he : e.pinned
+    · simp only [furthest, he, Bool.false_eq_true, if_false]
+      constructor
+      · intro h
+        cases hf : furthest r <;> simp [hf] at h
+        split at h <;> cases h
+      · intro h
+        have := h e List.mem_cons_self
+        rw [he] at this; cases this
+    · simp only [furthest, he, if_true, ih]
+      constructor
+      · intro h x hx
+        rcases List.mem_cons.1 hx with rfl | hx
+        · exact he
+        · exact h x hx
+      · intro h x hx; exact h x (List.mem_cons_of_mem _ hx)
 
-theorem furthest_some {res : List REntry} (hu : ∀ e ∈ res, e.pinned = false) {f : REntry}
-    (h : furthest res = some f) : f ∈ res ∧ ∀ e ∈ res, f.nextIdx ≤ e.nextIdx := by
+theorem furthest_some {res : List REntry} {f : REntry}
+    (h : furthest res = some f) :
+    f ∈ res ∧ f.pinned = false ∧ ∀ e ∈ res, e.pinned = false → f.nextIdx ≤ e.nextIdx := by
   induction res generalizing f with
   | nil => simp [furthest] at h
   | cons e r ih =>
-    have he := hu e List.mem_cons_self
-    have hu' : ∀ x ∈ r, x.pinned = false := fun x hx => hu x (List.mem_cons_of_mem _ hx)
-    simp only [furthest, he, Bool.false_eq_true, if_false] at h
-    cases hf : furthest r with
-    | none =>
-      simp only [hf, Option.some.injEq] at h
-      subst h
-      have : r = [] := (furthest_none hu').1 hf
-      subst this
-      simp
-    | some g =>
-      obtain ⟨hg, hall⟩ := ih hu' hf
-      simp only [hf] at h
-      by_cases hlt : e.nextIdx < g.nextIdx
-      · simp only [hlt, if_true, Option.some.injEq] at h
+    cases he : e.pinned
+    · simp only [furthest, he, Bool.false_eq_true, if_false] at h
+      cases hf : furthest r with
+      | none =>
+        simp only [hf, Option.some.injEq] at h
         subst h
-        refine ⟨List.mem_cons_self, ?_⟩
-        intro x hx
+        have hall := furthest_none.1 hf
+        refine ⟨List.mem_cons_self, he, ?_⟩
+        intro x hx hxp
         rcases List.mem_cons.1 hx with rfl | hx
         · exact Nat.le_refl _
-        · have := hall x hx; omega
-      · simp only [hlt, if_false, Option.some.injEq] at h
-        subst h
-        refine ⟨List.mem_cons_of_mem _ hg, ?_⟩
-        intro x hx
-        rcases List.mem_cons.1 hx with rfl | hx
-        · omega
-        · exact hall x hx
+        · rw [hall x hx] at hxp; cases hxp
+      | some g =>
+        obtain ⟨hg, hgp, hall⟩ := ih hf
+        simp only [hf] at h
+        by_cases hlt : e.nextIdx < g.nextIdx
+        · simp only [hlt, if_true, Option.some.injEq] at h
+          subst h
+          refine ⟨List.mem_cons_self, he, ?_⟩
+          intro x hx hxp
+          rcases List.mem_cons.1 hx with rfl | hx
+          · exact Nat.le_refl _
+          · have := hall x hx hxp; omega
+        · simp only [hlt, if_false, Option.some.injEq] at h
+          subst h
+          refine ⟨List.mem_cons_of_mem _ hg, hgp, ?_⟩
+          intro x hx hxp
+          rcases List.mem_cons.1 hx with rfl | hx
+          · omega
+          · exact hall x hx hxp
+    · simp only [furthest, he, if_true] at h
+      obtain ⟨hg, hgp, hall⟩ := ih h
+      refine ⟨List.mem_cons_of_mem _ hg, hgp, ?_⟩
+      intro x hx hxp
+      rcases List.mem_cons.1 hx with rfl | hx
+      · rw [he] at hxp; cases hxp
+      · exact hall x hx hxp
 
 end Traffic
 end Ft
